@@ -20,21 +20,21 @@ FUNCS = {
     "C18": R1CS_FUNCS + ["r1cs::proof::R1CSProof::to_bytes", "symark/src/refimpl.rs (pinned reference prover / verifier / generator derivation)"],
 }
 BOUNDS = {
-    "C01": {"quick": "18 call skeletons (16 named + 2 seeded random), padded gates <= 4, commitments <= 2, <= 2 randomized closures, capacities {pad, pad+1, 2*pad} rotated, shadow curve rotated over secq256k1 / zorro / curve25519; all field values symbolic",
-            "thorough": "named + 24 seeded random skeletons, padded gates <= 16, x 3 capacity pairs x 3 shadow curves; all field values symbolic"},
+    "C01": {"quick": "27 call skeletons (19 named + 8 seeded random), padded gates <= 4, commitments <= 2, <= 2 randomized closures, capacities {pad, pad+1, 2*pad} rotated, shadow curve rotated over secq256k1 / zorro / curve25519; all field values symbolic",
+            "thorough": "25 named + 80 seeded random skeletons (every fourth up to padded 16, linear combinations limited to 6 variables there), x 3 capacity pairs x 3 shadow curves; all field values symbolic"},
     "C02": {"quick": "15 (skeleton, error plan) cases, padded gates <= 4; error values symbolic (any value)", "thorough": "quick cases + every C01 thorough skeleton with a symbolic error on every constraint and every gate wire, 3 shadow curves"},
     "C03": {"quick": "7 skeletons, padded gates <= 4, commitments <= 2; proof object arbitrary", "thorough": "19 skeletons incl. 10 seeded random, padded gates <= 8, 3 curves"},
-    "C04": {"quick": "29 (skeleton, field) cases: every field of a padded-2 one-phase proof, second-phase points and final scalars of a two-phase proof, 4 swaps", "thorough": "+ every field (11 points, 3 scalars, 4 round points, a, b) of a padded-4 two-phase proof, 3 curves"},
-    "C05": {"quick": "19 deviations on circuits with <= 2 commitments and <= 2 gates", "thorough": "+ 5 deviations on a padded-4 two-phase circuit with 3 commitments, 3 curves"},
+    "C04": {"quick": "33 (skeleton, field) cases: every field of a padded-2 one-phase proof, second-phase points and final scalars of a two-phase proof, blinding scalars of a one-gate proof, round points of a padded-4 proof, 4 swaps; concrete companions: all single-field alterations / negations / round insertion and removal / coordinated forgeries on 3 skeletons, and bit flips with stride 3 on one curve", "thorough": "+ every field (11 points, 3 scalars, 4 round points, a, b) of a padded-4 two-phase proof, 3 curves"},
+    "C05": {"quick": "21 deviations on circuits with <= 3 commitments and <= 2 gates (incl. commitment-framed application data and a small-order component on curve25519)", "thorough": "+ 5 deviations on a padded-4 two-phase circuit with 3 commitments, 3 curves"},
     "C06": {"quick": "C01 quick skeletons + identity commitment (19), honest run and verifier-on-arbitrary-proof", "thorough": "C01 thorough skeletons, 3 curves"},
-    "C07": {"quick": "9 batches, k <= 3, members honest / arbitrary, padded sizes 1..4, growth past a power of two in the randomized phase in either position", "thorough": "+ batches of 4 and 5, 3 curves"},
+    "C07": {"quick": "12 batches, k <= 3, members honest / arbitrary / structurally invalid, padded sizes 1..4, growth past a power of two in the randomized phase in either position", "thorough": "+ batches of 4 and 5, 3 curves"},
     "C09": {"quick": "7 skeletons (0..3 gates, up to 3 commitments, second phase with 0, 2, 3 gates)", "thorough": "+ every symbolic-coefficient C01 thorough skeleton, 3 curves"},
-    "C10": {"quick": "k = 0..3 honest with symbolic factors, k = 0..4 arbitrary proof objects, unit / sparse / 0-1 variants, 2 degenerate cases", "thorough": "k = 0..5 honest (k = 6 with unit factors), k = 0..6 arbitrary; k = 7 of the property text only if listed in bounds_reached"},
+    "C10": {"quick": "k = 0..3 honest with symbolic factors, k = 0..4 arbitrary proof objects, unit / sparse / 0-1 / all-zero variants, 2 degenerate cases", "thorough": "k = 0..7 honest with symbolic factors (n = 128), k = 0..7 arbitrary proof objects, unit-factor k = 7: the full range of the property text"},
     "C13": {"quick": "no size bound (loop-free); symbolic v, r, k on default and arbitrary bases; 5 literal sets with 0, 1, -1, values above 2^64 and structured limb patterns; 3 curves", "thorough": "same"},
     "C15": {"quick": "3 batches of 30 seeded trees (depth <= 3, <= 6 variables) + 16 pipeline circuits", "thorough": "12 batches of 60 trees + 80 pipeline circuits"},
     "C16": {"quick": "Engine S: all call sequences with <= 3 first-phase and <= 2 second-phase calls (3276 sequences); Engine K: see kani section", "thorough": "Engine S: <= 5 first-phase and <= 2 second-phase calls"},
     "C17": {"quick": "Engine S: 6 skeletons (0..3 gates, second-phase growth), capacities 0..pad+1 (grid) and {pad, pad+1, 2pad, 4pad} (independence); Engine K: see kani section", "thorough": "+ 3 skeletons up to 6 gates, 3 curves"},
-    "C18": {"quick": "5 skeletons x 3 curves (0, 1, 3 gates one-phase; 2+1 and 2+3 two-phase)", "thorough": "+ 4, 0+3, 7 gates"},
+    "C18": {"quick": "7 skeletons x 3 curves (0, 1, 3, 4 gates one-phase; 2+1, 2+3 two-phase; two closures)", "thorough": "+ 4, 0+3, 7 gates"},
 }
 OUTSIDE = {
     "C01": "padded gate counts above the bound; the measure-zero set where a logged path-condition takes its other outcome (e.g. a nonce equal to 0); zero challenges (the code unwraps their inverses; probability 2^-255)",
